@@ -22,6 +22,7 @@ type Engine struct {
 	methContract map[*types.Func]*Contract
 	purePkgs     map[string]bool
 	constGlobal  map[*ssa.Global]bool
+	nonNilGlobal map[*ssa.Global]bool
 	mu           sync.Mutex
 	cellableC    map[*ssa.Alloc]bool
 	loopC        map[*ssa.Function]*loopInfo
@@ -52,6 +53,7 @@ func NewEngine(prog *Program, cs *ContractSet) *Engine {
 	e.findConstGlobals()
 	e.checkTypeInvs()
 	e.checkImmutable()
+	e.findNonNilGlobals()
 	return e
 }
 
@@ -124,6 +126,31 @@ func (e *Engine) resolveName(pkgPath, name string) (*ssa.Function, *types.Func, 
 // findClosure finds the anonymous function bound to local variable `name`
 // in fn, or the n-th anonymous function for "$n".
 func (e *Engine) findClosure(fn *ssa.Function, name string) *ssa.Function {
+	if strings.HasPrefix(name, "$[") && strings.HasSuffix(name, "]") {
+		// $[a,s]: the unique anonymous function that captures (at least) these variables;
+		// robust against closures being added or reordered
+		want := strings.Split(name[2:len(name)-1], ",")
+		var found *ssa.Function
+		for _, a := range fn.AnonFuncs {
+			ok := true
+			for _, w := range want {
+				has := false
+				for _, fv := range a.FreeVars {
+					if fv.Name() == strings.TrimSpace(w) {
+						has = true
+					}
+				}
+				ok = ok && has
+			}
+			if ok {
+				if found != nil {
+					return nil // ambiguous
+				}
+				found = a
+			}
+		}
+		return found
+	}
 	if strings.HasPrefix(name, "$") {
 		for _, a := range fn.AnonFuncs {
 			if strings.HasSuffix(a.Name(), name) {
